@@ -1,8 +1,11 @@
 """C03 — a file built through the API decodes, per the ELF spec, to what was put in.
 
-Proof (Props/C03.lean): see the theorem list in the evidence (record encoders = specification codec:
-`encodeShdr_eq_spec`, `encodePhdr_eq_spec`, header setters; string-table names; the whole-save
-theorem ladder as far as discharged).  Correspondence: harness/load.cpp (real API: create, setters,
+Proof (Props/C03.lean; details in that file's header): record encoders = specification codec
+(`encodeShdr_spec_bytes`, `encodeShdr_eq_spec`, `encodePhdr_*`, `decode*_encode*`), header setters
+(`hdr_set_get`, `hdr_set_frame`, ...), construction (`create_inv`, `sectionsAdd_name`), the stream
+(`saveSection_writes`), and the composition `save_decodes` / `save_decode_fields` / `save_decode_header`
+(saved bytes decode, per the specification, to the object's header, sections incl. data, segments) under
+C04's disjointness taken as hypothesis `LayoutOk` - all rungs (no / flat / nested segments) at once.  Correspondence: harness/load.cpp (real API: create, setters,
 sections.add, set_data, segments.add, add_section_index, save) vs Driver/Load.lean (Model/Writer.lean)
 — saved bytes compared in full.  Oracle: tools/elfspec.decode of the implementation's bytes vs the
 program's inputs.  Compression interface: not exercised (objects are constructed without one; with
@@ -13,7 +16,32 @@ from families.writercommon import *
 PROPERTY = "C03"
 FAMILY = "load"
 LEAN_MODULE = "ElfioVerif.Props.C03"
-THEOREMS = ["ElfioVerif.C03.encodeShdr_eq_spec", "ElfioVerif.C03.encodePhdr_eq_spec"]
+THEOREMS = ["ElfioVerif.C03.encodeShdr_spec_bytes",
+            "ElfioVerif.C03.encodePhdr_spec_bytes",
+            "ElfioVerif.C03.encodeShdr_eq_spec",
+            "ElfioVerif.C03.encodePhdr_eq_spec",
+            "ElfioVerif.C03.decodeShdr_encodeShdr",
+            "ElfioVerif.C03.decodePhdr_encodePhdr",
+            "ElfioVerif.C03.hdr_set_get_spec",
+            "ElfioVerif.C03.hdr_set_frame_spec",
+            "ElfioVerif.C03.hdr_set_get",
+            "ElfioVerif.C03.hdr_set_frame",
+            "ElfioVerif.C03.hdr_set_ident_get",
+            "ElfioVerif.C03.create_eq",
+            "ElfioVerif.C03.create_header",
+            "ElfioVerif.C03.create_inv",
+            "ElfioVerif.C03.sectionsAdd_name",
+            "ElfioVerif.C03.saveSection_writes",
+            "ElfioVerif.C03.save_decodes",
+            "ElfioVerif.C03.save_decodes_header",
+            "ElfioVerif.C03.save_decodes_section",
+            "ElfioVerif.C03.save_decodes_segment",
+            "ElfioVerif.C03.save_header_fields",
+            "ElfioVerif.C03.save_decode_fields",
+            "ElfioVerif.C03.save_decode_header",
+            "ElfioVerif.C03.save_image_header",
+            "ElfioVerif.C03.secWrites_pairwise",
+            "ElfioVerif.C03.layoutOk_of_zones"]
 SITES = ["conv", "save_", "lsws", "lst_", "lseg", "wsd", "sec32_set", "sec64_set", "sec32_insert", "sec64_insert"]
 RULE = ("API construction programs from a random-model generator (0-8 sections of mixed types/flags/alignments/"
         "sizes incl. empty and no-bits, 0-4 segments incl. nested ones and a section-less PT_PHDR, explicit or "
